@@ -1009,7 +1009,7 @@ def gen_nongauss_case(rng):
 
 
 def plan(tier, seed, scale=1.0):
-    n = int((60 if tier == "quick" else 1300) * scale)
+    n = int((60 if tier == "quick" else 1000) * scale)
     return [{"n": n, "timeout": 3000, "ksN": 2500 if tier == "quick" else 12000} for _ in range(16)]
 
 
